@@ -46,6 +46,7 @@ func zzC16AutoIrri(depth int) {
 	irr0 := g.IRRISIM
 	g.ZTBR[0] = 0
 	g.BREG[0] = 0
+	cfgSaat, cfgSt1, cfgSt2, cfgMax, cfgStage := g.SAAT[1], g.IRRST1[1], g.IRRST2[1], g.IRRMAX[1], g.INTWICK.Num // configuration and crop state before the block
 	_, ctl := zzR_AutoIrri(&g, ZEIT)
 	vCover("C16.irri.reach")
 	vAssert("C16.irri.falls_through", ctl == 0)
@@ -53,13 +54,14 @@ func zzC16AutoIrri(depth int) {
 	scheduled := g.ZTBR[0] == ZEIT
 	if scheduled {
 		vCover("C16.irri.cover_triggered")
-		vAssert("C16.irri.only_after_sowing", g.SAAT[1] > 0 && ZEIT > g.SAAT[1])
-		vAssert("C16.irri.only_between_configured_stages", g.INTWICK.Num >= g.IRRST1[1] && g.INTWICK.Num < g.IRRST2[1]+1)
-		vAssert("C16.irri.amount_within_daily_maximum", g.BREG[0] >= 0 && g.BREG[0] <= g.IRRMAX[1]+1e-9)
+		vAssert("C16.irri.only_after_sowing", cfgSaat > 0 && ZEIT > cfgSaat)
+		vAssert("C16.irri.only_between_configured_stages", cfgStage >= cfgSt1 && cfgStage < cfgSt2+1)
+		vAssert("C16.irri.amount_within_daily_maximum", g.BREG[0] >= 0 && g.BREG[0] <= cfgMax+1e-9)
 		vAssert("C16.irri.sum_counter", vNear(g.IRRISIM-irr0, g.BREG[0], 1e-9))
 	} else {
 		vAssert("C16.irri.nothing_otherwise", g.BREG[0] == 0 && g.IRRISIM == irr0)
 	}
+	vAssert("C16.irri.configuration_not_changed", g.SAAT[1] == cfgSaat && g.IRRST1[1] == cfgSt1 && g.IRRST2[1] == cfgSt2 && g.IRRMAX[1] == cfgMax && g.INTWICK.Num == cfgStage)
 }
 
 func zzC16AutoSow(win int) {
@@ -98,6 +100,7 @@ func zzC16AutoSow(win int) {
 	g.WNOR[0] = vFloat("wnor")
 	vAssume(0 < g.WMIN[0] && g.WMIN[0] < g.WNOR[0] && g.WNOR[0] < 1 && g.WG[0][0] > 0 && g.WG[0][0] < 1)
 	saat0 := g.SAAT[1]
+	win1, win2 := g.SAAT1[1], g.SAAT2[1] // the configured window (the block must not move it)
 	_, ctl := zzR_AutoSow(&g, ZEIT)
 	vCover("C16.sow.reach")
 	vAssert("C16.sow.falls_through", ctl == 0)
@@ -106,13 +109,14 @@ func zzC16AutoSow(win int) {
 		vAssert("C16.sow.sown_once", g.SAAT[1] == saat0)
 	} else if g.SAAT[1] != 0 {
 		vCover("C16.sow.cover_sown_today")
-		vAssert("C16.sow.sown_today_inside_window", g.SAAT[1] == ZEIT && ZEIT >= g.SAAT1[1] && ZEIT <= g.SAAT2[1])
+		vAssert("C16.sow.sown_today_inside_window", g.SAAT[1] == ZEIT && ZEIT >= win1 && ZEIT <= win2)
 		vAssert("C16.sow.after_previous_harvest", g.SAAT[1] > g.ERNTE[0])
 	}
 	// forced sowing at the end of the window; invariant for tomorrow
-	if ZEIT == g.SAAT2[1] {
+	if ZEIT == win2 {
 		vCover("C16.sow.cover_window_end")
 		vAssert("C16.sow.forced_at_window_end", g.SAAT[1] != 0)
 	}
-	vAssert("C16.sow.invariant_preserved", g.SAAT[1] == 0 && ZEIT+1 <= g.SAAT2[1] || g.SAAT[1] >= g.SAAT1[1] && g.SAAT[1] <= g.SAAT2[1])
+	vAssert("C16.sow.configured_window_not_moved", g.SAAT1[1] == win1 && g.SAAT2[1] == win2)
+	vAssert("C16.sow.invariant_preserved", g.SAAT[1] == 0 && ZEIT+1 <= win2 || g.SAAT[1] >= win1 && g.SAAT[1] <= win2)
 }
